@@ -32,6 +32,10 @@ ASSUMPTIONS = [
 TRUSTED = [
     "corr/exec_common.py: world function (mirrored by PyGqlModel/World.lean), AST->JSON converter, canonicalisation, Python reference of the spec algorithm",
     "gen/operation.py: generator of valid operations (every generated document is re-validated with the real validate_ast)",
+    "Props/C04_history.lean models the Document store as never written by a request; the tie to the code is the oracle of "
+    "run_shared: Document.to_dict() before == after serving (and every response on a shared Document == response of a fresh parse)",
+    "Props/C04_history.lean models Executor/ResolutionContext memo tables as created empty per request (execute() constructs the executor); "
+    "tied to the code by the history streams (same Schema object, shared Documents, fresh Schema object)",
 ]
 EXPLANATION = ("model = Exec.lean (code-shaped, with the _seen_fragments quirk and explicit internalError outcomes); "
                "spec = Spec/ExecSpec.lean; theorems in Props/C04.lean relate them; this correspondence ties the model to the code.")
